@@ -184,3 +184,48 @@ pub fn parse_bytes_via(ep: Ep, bytes: &[u8], opts: Options) -> POut {
 pub fn codemap_triples(m: &CodeMap) -> Vec<(usize, usize, usize)> {
 	m.iter().map(|(_, e)| (e.span.start(), e.span.end(), e.volume)).collect()
 }
+
+/// Parses `chars[..k]` followed by an injected stream error carrying `marker`.
+/// Returns the normalised error plus the payload that came back.
+pub fn parse_with_stream_error(ep: Ep, chars: &[char], k: usize, marker: u32, opts: Options) -> (POut, Option<u32>) {
+	let it = chars[..k].iter().copied().map(Ok::<char, u32>).chain(std::iter::once(Err(marker)));
+	fn split<T>(r: Result<(Value, CodeMap), Error<T>>) -> (POut, Option<T>) {
+		match r {
+			Ok((v, m)) => (
+				POut {
+					result: Ok((v, Some(m))),
+					pos_span: None,
+				},
+				None,
+			),
+			Err(e) => {
+				let pos = e.position();
+				let sp = e.span();
+				let (p, payload) = match e {
+					Error::Stream(p, x) => (PErr::Stream(p), Some(x)),
+					Error::Unexpected(p, c) => (PErr::Unexpected(p, c), None),
+					Error::InvalidUnicodeCodePoint(s, c) => (PErr::InvalidCodePoint(s.start(), s.end(), c), None),
+					Error::MissingLowSurrogate(s, h) => (PErr::MissingLow(s.start(), s.end(), h), None),
+					Error::InvalidLowSurrogate(s, h, c) => (PErr::InvalidLow(s.start(), s.end(), h, c), None),
+					Error::InvalidUtf8(p) => (PErr::InvalidUtf8(p), None),
+				};
+				(
+					POut {
+						result: Err(p),
+						pos_span: Some((pos, (sp.start(), sp.end()))),
+					},
+					payload,
+				)
+			}
+		}
+	}
+	match ep {
+		Ep::Utf8 => split(Value::parse_utf8(it)),
+		Ep::Utf8With => split(Value::parse_utf8_with(it, opts)),
+		Ep::Parse => split(Value::parse(it.map(|c| c.map(DecodedChar::from_utf8)))),
+		Ep::ParseWith => split(Value::parse_with(it.map(|c| c.map(DecodedChar::from_utf8)), opts)),
+		_ => panic!("{ep:?} has no fallible stream"),
+	}
+}
+
+pub const STREAM_EPS: [Ep; 4] = [Ep::Utf8, Ep::Utf8With, Ep::Parse, Ep::ParseWith];
